@@ -103,8 +103,14 @@ def untoken(s):
 
 
 # ------------------------------------------------------------------ spaces
-def cvs_float(cvs):
-    return [np.array([flt(g) for g in cv], dtype=float) for cv in cvs]
+def aff_of(conc):
+    """affine change of coordinates of a concretisation: [offset, log2(scale)] -> (offset, scale) ; exact in float64"""
+    a = conc.get('affine') if conc else None
+    return (0.0, 1.0) if not a else (float(a[0]), 2.0 ** int(a[1]))
+
+
+def cvs_float(cvs, aff=(0.0, 1.0)):
+    return [np.array([aff[0] + aff[1] * flt(g) for g in cv], dtype=float) for cv in cvs]
 
 
 def space_for(cvs, dtype, kind='nonuniform'):
@@ -121,10 +127,18 @@ def space_for(cvs, dtype, kind='nonuniform'):
 
 
 def unit_space(sp, dtype):
-    """sp: [{'n':, 'nob':}] per axis -> uniform_discr on [0,1]^d"""
-    d = len(sp)
-    return odl.uniform_discr([0.0] * d, [1.0] * d, [s['n'] for s in sp], dtype=dtype,
-                             nodes_on_bdry=[bool(s['nob']) for s in sp])
+    """sp: per axis {'b': Q, 'n', 'L', 'R', 'nu': explicit nodes or []} -> discretisation of prod [0, b_k]"""
+    if all(not s['nu'] for s in sp):
+        return odl.uniform_discr([0.0] * len(sp), [flt(s['b']) for s in sp], [s['n'] for s in sp], dtype=dtype,
+                                 nodes_on_bdry=[(bool(s['L']), bool(s['R'])) for s in sp])
+    part = None
+    for s in sp:
+        if s['nu']:
+            p = odl.nonuniform_partition([flt(v) for v in s['nu']], min_pt=0.0, max_pt=flt(s['b']))
+        else:
+            p = odl.uniform_partition(0.0, flt(s['b']), s['n'], nodes_on_bdry=[(bool(s['L']), bool(s['R']))])
+        part = p if part is None else part.append(p)
+    return odl.DiscretizedSpace(part, odl.tensor_space(part.shape, dtype=dtype))
 
 
 def grid_q(space):
@@ -272,10 +286,10 @@ def interpolators_for(schemes):
 FORMS = ['single', 'array', 'array_out', 'mesh', 'mesh_out']
 
 
-def call_interp(itp, form, xs, pts, ndim, out_dtype):
+def call_interp(itp, form, xs, pts, ndim, out_dtype, aff=(0.0, 1.0)):
     """xs: list of points (exact json), pts: per-axis point lists (for the mesh forms, product in C order).
-    Returns a flat list of results in the order of xs."""
-    X = np.array([[flt(v) for v in x] for x in xs], dtype=float)        # (N, ndim)
+    Points are float64 (moved / scaled by `aff`). Returns a flat list of results in the order of xs."""
+    X = np.array([[aff[0] + aff[1] * flt(v) for v in x] for x in xs], dtype=float)        # (N, ndim)
     if form == 'single':
         return [itp(float(x[0]) if ndim == 1 else list(map(float, x))) for x in X]
     if form in ('array', 'array_out'):
@@ -288,7 +302,7 @@ def call_interp(itp, form, xs, pts, ndim, out_dtype):
             return list(np.asarray(r).ravel())
         return list(np.asarray(itp(arr)).ravel())
     # every other form is a mesh grid over the per-axis point lists `pts` ('mesh', 'mesh_out', 'mesh_1pt')
-    mesh = sparse_meshgrid(*[np.array([flt(v) for v in p], dtype=float) for p in pts])
+    mesh = sparse_meshgrid(*[np.array([aff[0] + aff[1] * flt(v) for v in p], dtype=float) for p in pts])
     shape = tuple(len(p) for p in pts)
     if form == 'mesh_out':
         out = np.empty(shape, dtype=out_dtype)
